@@ -209,6 +209,7 @@ func mergeKnobs(parent, k Knobs) Knobs {
 		k.FlushMargin = parent.FlushMargin
 	}
 	k.CacheOnly = k.CacheOnly || parent.CacheOnly
+	k.LazyWake = k.LazyWake || parent.LazyWake
 	return k
 }
 
@@ -650,6 +651,15 @@ func (t *timeline) run() {
 		res := t.exec(s)
 		recOps := append([]byte(nil), w.stmtRecOps...)
 		w.EndStmt()
+		// boundary images after this statement: the process dies the moment the
+		// statement has returned - before the observer queries below take the
+		// store lock (which would let a flusher that is still waiting for its
+		// turn run first, see Knobs.LazyWake)
+		for _, rq := range reqs {
+			if rq.sel.Site == SiteBoundary {
+				w.CaptureBoundary(rq)
+			}
+		}
 		if t.path == "" {
 			t.r.res.EvCounts = append(t.r.res.EvCounts, w.evIdx)
 			cls := s.Kind
@@ -853,12 +863,6 @@ func (t *timeline) run() {
 			if te != nil {
 				t.violate("O-tree", fmt.Sprintf("after statement %d: %s", i, te.detail), map[string]string{"how": "tree", "class": te.kind}, i)
 				break
-			}
-		}
-		// boundary images after this statement
-		for _, rq := range reqs {
-			if rq.sel.Site == SiteBoundary {
-				w.CaptureBoundary(rq)
 			}
 		}
 		t.resolveOutside(m, "acknowledged")
